@@ -664,6 +664,22 @@ func (e *SpecEnv) call(x *ast.CallExpr) T {
 		c := e.tr(x.Args[0])
 		return e.cur.StateOf(c)
 	case "get":
+		// get(view, key): a store handle (prefix.Store / KVStore value held by a parameter or local) read at key
+		if len(x.Args) == 2 {
+			id, ok := x.Args[0].(*ast.Ident)
+			if !ok {
+				sfail("get(view, key): the view must be a name")
+			}
+			vv, ok := e.vars[id.Name].(*ViewVal)
+			if !ok {
+				sfail("get(view, key): %s is not a store handle", id.Name)
+			}
+			k := e.tr(x.Args[1])
+			if !vv.Prefix.IsZero() {
+				k = Cat(vv.Prefix, k)
+			}
+			return stGet(Select(e.cur.kv, vv.Cell, SState), vv.Store, k)
+		}
 		// get(ctx, storeName, key)
 		c := e.tr(x.Args[0])
 		sid := e.storeArg(x.Args[1])
